@@ -266,4 +266,162 @@ theorem unescape_htmlEscape_of_no_backslash (b : Bytes) (hb : ∀ x ∈ b, x ≠
     rw [unescape_cons_of_ne c _ (hb c (by simp)), ih (fun x hx => hb x (List.mem_cons_of_mem _ hx))]
   | case6 => simp [unescape]
 
+/-! ### unescape ∘ htmlEscape for ALL inputs (pre-existing backslashes and escapes included) -/
+
+/-- a byte that `htmlEscape` copies whatever follows it, and that is not a backslash -/
+def Plain (y : UInt8) : Prop := isHtmlByte y = false ∧ y ≠ 0xE2 ∧ y ≠ 0x5C
+
+theorem unesc6_plain (a b c d : UInt8) (o : Bytes) (h : unesc6 a b c d = some o) :
+    Plain a ∧ Plain b ∧ Plain c ∧ Plain d := by
+  unfold unesc6 at h
+  have key : ∀ (k1 k2 k3 k4 : UInt8), (a == k1 && b == k2 && c == k3 && d == k4) = true →
+      a = k1 ∧ b = k2 ∧ c = k3 ∧ d = k4 := by
+    intro k1 k2 k3 k4 hc
+    simp only [Bool.and_eq_true, beq_iff_eq] at hc
+    exact ⟨hc.1.1.1, hc.1.1.2, hc.1.2, hc.2⟩
+  split at h
+  · rename_i hc; obtain ⟨rfl, rfl, rfl, rfl⟩ := key _ _ _ _ hc; unfold Plain; decide
+  · split at h
+    · rename_i hc; obtain ⟨rfl, rfl, rfl, rfl⟩ := key _ _ _ _ hc; unfold Plain; decide
+    · split at h
+      · rename_i hc; obtain ⟨rfl, rfl, rfl, rfl⟩ := key _ _ _ _ hc; unfold Plain; decide
+      · split at h
+        · rename_i hc; obtain ⟨rfl, rfl, rfl, rfl⟩ := key _ _ _ _ hc; unfold Plain; decide
+        · split at h
+          · rename_i hc; obtain ⟨rfl, rfl, rfl, rfl⟩ := key _ _ _ _ hc; unfold Plain; decide
+          · cases h
+
+theorem unescape_match (a b c d : UInt8) (r o : Bytes) (h : unesc6 a b c d = some o) :
+    unescape (0x5C :: 0x75 :: a :: b :: c :: d :: r) = o ++ unescape r := by
+  rw [unescape]; simp [h]
+
+theorem unescape_nomatch (t : Bytes)
+    (h : ∀ a b c d r o, t = 0x75 :: a :: b :: c :: d :: r → unesc6 a b c d = some o → False) :
+    unescape (0x5C :: t) = 0x5C :: unescape t := by
+  match t, h with
+  | u :: a :: b :: c :: d :: r, h =>
+    rw [unescape]
+    by_cases hu : u = 0x75
+    · subst hu
+      cases hx : unesc6 a b c d with
+      | none => simp [hx]
+      | some o => exact absurd hx (fun hx => h a b c d r o rfl hx)
+    · simp [hu]
+  | [], _ => rw [unescape]; intro u a b c' d r e; cases e
+  | [_], _ => rw [unescape]; intro u a b c' d r e; cases e
+  | [_, _], _ => rw [unescape]; intro u a b c' d r e; cases e
+  | [_, _, _], _ => rw [unescape]; intro u a b c' d r e; cases e
+  | [_, _, _, _], _ => rw [unescape]; intro u a b c' d r e; cases e
+
+theorem htmlEscape_nil : htmlEscape [] = [] := by rw [htmlEscape]
+
+theorem htmlEscape_peel (t : Bytes) (y : UInt8) (T : Bytes) (h : htmlEscape t = y :: T) (hy : Plain y) :
+    ∃ t', t = y :: t' ∧ T = htmlEscape t' := by
+  match t with
+  | [] => rw [htmlEscape_nil] at h; cases h
+  | a :: t' =>
+    have ha : a = y := by
+      rcases htmlEscape_head a t' with hh | hh <;> rw [h] at hh <;> simp at hh
+      · exact hh.symm
+      · exact absurd hh hy.2.2
+    subst ha
+    rw [htmlEscape_cons_plain a t' hy.1 hy.2.1] at h
+    injection h with _ h2
+    exact ⟨t', rfl, h2.symm⟩
+
+theorem plain_5C_copy (l : Bytes) : htmlEscape (0x5C :: l) = 0x5C :: htmlEscape l :=
+  htmlEscape_cons_plain 0x5C l (by decide) (by decide)
+
+theorem plain_75 : Plain 0x75 := ⟨by decide, by decide, by decide⟩
+
+theorem htmlEscape_keeps_escape (a b c d : UInt8) (r o : Bytes) (h : unesc6 a b c d = some o) :
+    htmlEscape (0x5C :: 0x75 :: a :: b :: c :: d :: r) = 0x5C :: 0x75 :: a :: b :: c :: d :: htmlEscape r := by
+  obtain ⟨ha, hb, hc, hd⟩ := unesc6_plain a b c d o h
+  rw [plain_5C_copy, htmlEscape_cons_plain 0x75 _ (by decide) (by decide),
+    htmlEscape_cons_plain a _ ha.1 ha.2.1, htmlEscape_cons_plain b _ hb.1 hb.2.1,
+    htmlEscape_cons_plain c _ hc.1 hc.2.1, htmlEscape_cons_plain d _ hd.1 hd.2.1]
+
+/-- a byte that is not special and does not start a U+2028/9 triple is copied -/
+theorem htmlEscape_cons_keep (x : UInt8) (t : Bytes) (h1 : isHtmlByte x = false)
+    (h2 : ∀ c2 t', x = 0xE2 → t = 0x80 :: c2 :: t' → isLsByte c2 = true → False) :
+    htmlEscape (x :: t) = x :: htmlEscape t := by
+  match t, h2 with
+  | [], _ => rw [htmlEscape]; simp [h1]
+             intro c1 c2 r h; cases h
+  | [_], _ => rw [htmlEscape]; simp [h1]
+              intro c1 c2 r h; cases h
+  | c1 :: c2 :: r, h2 =>
+    rw [htmlEscape]; simp only [h1]
+    by_cases hx : x = 0xE2 ∧ c1 = 0x80 ∧ isLsByte c2 = true
+    · obtain ⟨rfl, rfl, h3⟩ := hx
+      exact absurd h3 (fun h3 => h2 c2 r rfl rfl h3)
+    · have : (x == 0xE2 && c1 == 0x80 && isLsByte c2) = false := by
+        cases hh : (x == 0xE2 && c1 == 0x80 && isLsByte c2) with
+        | false => rfl
+        | true =>
+          simp only [Bool.and_eq_true, beq_iff_eq] at hh
+          exact absurd ⟨hh.1.1, hh.1.2, hh.2⟩ hx
+      simp [this]
+
+theorem htmlEscape_triple (c2 : UInt8) (t' : Bytes) (h : isLsByte c2 = true) :
+    htmlEscape (0xE2 :: 0x80 :: c2 :: t') = esc202 c2 ++ htmlEscape t' := by
+  rw [htmlEscape]; simp [h, isHtmlByte]
+
+theorem htmlEscape_html (x : UInt8) (t : Bytes) (h : isHtmlByte x = true) :
+    htmlEscape (x :: t) = esc00 x ++ htmlEscape t := by
+  match t with
+  | [] => rw [htmlEscape]; simp [h]
+          intro c1 c2 r e; cases e
+  | [_] => rw [htmlEscape]; simp [h]
+           intro c1 c2 r e; cases e
+  | c1 :: c2 :: r => rw [htmlEscape]; simp [h]
+
+theorem isLsByte_ne_5C (c : UInt8) (h : isLsByte c = true) : c ≠ 0x5C := by
+  intro e; subst e; simp [isLsByte] at h
+
+/-- **Meaning preserved, for every byte string**: undoing the five escapes in the escaped text and in the original
+gives the same bytes — whether or not the original already contains backslashes or such escapes. -/
+theorem unescape_htmlEscape_all : ∀ (n : Nat) (b : Bytes), b.length ≤ n → unescape (htmlEscape b) = unescape b := by
+  intro n
+  induction n with
+  | zero =>
+    intro b hb
+    have : b = [] := List.eq_nil_of_length_eq_zero (Nat.le_zero.mp hb)
+    subst this; rw [htmlEscape_nil]
+  | succ n ih =>
+    intro b hb
+    match b, hb with
+    | [], _ => rw [htmlEscape_nil]
+    | x :: t, hb =>
+      have ht : t.length ≤ n := by simpa using hb
+      by_cases hm : ∃ a b c d r o, x = 0x5C ∧ t = 0x75 :: a :: b :: c :: d :: r ∧ unesc6 a b c d = some o
+      · -- a pre-existing escape is copied and undone on both sides
+        obtain ⟨a, b', c, d, r, o, rfl, rfl, ho⟩ := hm
+        rw [htmlEscape_keeps_escape a b' c d r o ho, unescape_match a b' c d _ o ho, unescape_match a b' c d r o ho,
+          ih r (by simp at ht; omega)]
+      · by_cases hh : isHtmlByte x = true
+        · have hx : x ≠ 0x5C := by intro e; subst e; simp [isHtmlByte] at hh
+          rw [htmlEscape_html x t hh, unescape_esc00 x hh, unescape_cons_of_ne x t hx, ih t ht]
+        · have hh' : isHtmlByte x = false := by simpa using hh
+          by_cases h3 : ∃ c2 t', x = 0xE2 ∧ t = 0x80 :: c2 :: t' ∧ isLsByte c2 = true
+          · obtain ⟨c2, t', rfl, rfl, hl⟩ := h3
+            rw [htmlEscape_triple c2 t' hl, unescape_esc202 c2 hl, ih t' (by simp at ht; omega),
+              unescape_cons_of_ne 0xE2 _ (by decide), unescape_cons_of_ne 0x80 _ (by decide),
+              unescape_cons_of_ne c2 _ (isLsByte_ne_5C c2 hl)]
+          · rw [htmlEscape_cons_keep x t hh' (fun c2 t' e1 e2 e3 => h3 ⟨c2, t', e1, e2, e3⟩)]
+            by_cases hx : x = 0x5C
+            · subst hx
+              rw [unescape_nomatch t (fun a b c d r o e ho => hm ⟨a, b, c, d, r, o, rfl, e, ho⟩)]
+              rw [unescape_nomatch (htmlEscape t), ih t ht]
+              -- the escaped tail cannot start a new match: its first five bytes would be the tail's
+              intro a b c d R o e ho
+              obtain ⟨pa, pb, pc, pd⟩ := unesc6_plain a b c d o ho
+              obtain ⟨t1, rfl, e1⟩ := htmlEscape_peel t _ _ e plain_75
+              obtain ⟨t2, rfl, e2⟩ := htmlEscape_peel t1 _ _ e1.symm pa
+              obtain ⟨t3, rfl, e3⟩ := htmlEscape_peel t2 _ _ e2.symm pb
+              obtain ⟨t4, rfl, e4⟩ := htmlEscape_peel t3 _ _ e3.symm pc
+              obtain ⟨t5, rfl, _⟩ := htmlEscape_peel t4 _ _ e4.symm pd
+              exact hm ⟨a, b, c, d, t5, o, rfl, rfl, ho⟩
+            · rw [unescape_cons_of_ne x _ hx, unescape_cons_of_ne x _ hx, ih t ht]
+
 end JsonV.Lemmas.V1L
